@@ -5,6 +5,7 @@
 #include "logger.h"
 #include "transposition_table.h"
 #include "chessplusplusConfig.h"
+#include "verif_hooks.h"
 
 namespace engine
 {
@@ -49,6 +50,7 @@ void Uci::loop()
         if (line == "")
             continue;
 
+        VERIF_POINT(UCI_CMD_READ, nullptr, nullptr, &position, 0, 0);
         logger.fout << line << std::endl;
         std::istringstream istream(line);
         istream >> token;
@@ -83,6 +85,7 @@ void Uci::loop()
         {
             sync_cout << "Unknown command" << sync_endl;
         }
+        VERIF_POINT(UCI_CMD_DONE, nullptr, nullptr, &position, 0, 0);
     }
 }
 
@@ -243,6 +246,7 @@ bool Uci::moves_command(std::istringstream& istream)
 
 void start_searching(Uci* uci)
 {
+    VERIF_POINT(THREAD_START, uci->search.get(), nullptr, &uci->position, 0, 0);
     uint64_t key = PolyglotBook::hash(uci->position);
     if (uci->polyglot.contains(key))
     {
@@ -287,6 +291,7 @@ bool Uci::go_command(std::istringstream& istream)
         else if (token == "searchmoves")
         {
             while (istream >> token)
+                VERIF_BOUND(limits.searchmovesnum, MAX_MOVES, "uci.cpp:searchmoves"),
                 limits.searchmoves[limits.searchmovesnum++] =
                     position.parse_uci(token);
         }
@@ -341,6 +346,7 @@ bool Uci::perft_command(std::istringstream& istream)
     uint64_t sum = 0;
     if (depth > 0)
     {
+        VERIF_BOUND(depth, 4 * MAX_DEPTH, "uci.cpp:MOVE_LIST(perft)");
         Move* begin = MOVE_LIST[depth];
         Move* end = generate_moves(position, position.color(), begin);
 
